@@ -16,8 +16,6 @@ import (
 	"runtime"
 	"sync"
 	"sync/atomic"
-
-	"github.com/IrineSistiana/mosdns/v5/pkg/pool"
 )
 
 const (
@@ -66,9 +64,18 @@ func Install(cb func(Report)) {
 	onReport = cb
 	live = map[*[]byte]int{}
 	released = map[*[]byte]bool{}
-	pool.GetBuf = get
-	pool.ReleaseBuf = release
+	if !attach() {
+		// built with tag nopoolsan: this tree's pool cannot be replaced (see hook_off.go)
+		disabled = true
+		fmt.Println("NOTE: pool sanitizer not attached: pkg/pool of this tree does not export GetBuf / ReleaseBuf as variables; buffers are not poisoned, use-after-release is left to the race detector and the byte-level oracles")
+	}
 }
+
+// disabled: Install could not replace the pool (tag nopoolsan); Check accepts everything.
+var disabled bool
+
+// Attached reports whether the sanitizer replaced the pool.
+func Attached() bool { mu.Lock(); defer mu.Unlock(); return installed && !disabled }
 
 func capFor(size int) int {
 	bit := bits.Len(uint(size))
@@ -196,6 +203,10 @@ func memset(b []byte, c byte) {
 // hand-over point for the report.
 func Check(bp *[]byte, what string) bool {
 	mu.Lock()
+	if disabled {
+		mu.Unlock()
+		return true
+	}
 	_, isLive := live[bp]
 	wasReleased := released[bp]
 	mu.Unlock()
